@@ -86,7 +86,7 @@ def all_single_calls(dumper=True):
     out += [{"e": "SetHook", "h": h, "on": on} for h in HOOKS for on in (1, 0)]
     out.append({"e": "Reset"})
     out += [{"e": "OpenBank", "b": b, "bad": bad} for b in (1, 2, 3) for bad in (0, 1, 2, 3) if b == 1 or bad == 0]
-    out += [{"e": "OpenMidi", "s": s, "bad": bad} for s in (1, 2) for bad in (0, 1, 2, 3, 4) if s == 1 or bad == 0]
+    out += [{"e": "OpenMidi", "s": s, "bad": bad} for s in (1, 2) for bad in (0, 1, 2, 3, 4, 5) if s == 1 or bad == 0]
     out += [{"e": "OpenMidi", "s": 3, "bad": bad} for bad in (0, 4)]      # the EA-MUS song (locks the set-up) / its signature broken
     return out
 
@@ -222,7 +222,7 @@ def random_call(rng, p_invalid=0.35):
         return {"e": "Reset"}
     if r < 0.94:
         return {"e": "OpenBank", "b": rng.choice([1, 2, 3]), "bad": rng.choice([1, 2, 3]) if rng.random() < p_invalid else 0}
-    return {"e": "OpenMidi", "s": rng.choice([1, 2, 3, 3]), "bad": rng.choice([1, 2, 3, 4]) if rng.random() < p_invalid else 0}
+    return {"e": "OpenMidi", "s": rng.choice([1, 2, 3, 3]), "bad": rng.choice([1, 2, 3, 4, 5, 5]) if rng.random() < p_invalid else 0}
 
 
 def random_history(rng, length=14):
